@@ -80,7 +80,9 @@ def jackknife_ratios(num: np.ndarray, denom: np.ndarray):
     num_mean = np.mean(num)
     denom_mean = np.mean(denom)
     mean = num_mean / denom_mean
-    jackknife_estimates = np.zeros(n_samples, dtype=num.dtype)
+    # the leave-one-out ratios are real (or complex) numbers even when the samples are stored in an
+    # integer array: never truncate them to the dtype of the input
+    jackknife_estimates = np.zeros(n_samples, dtype=np.result_type(num.dtype, np.float64))
     for i in range(n_samples):
         mean_num_i = (num_mean * n_samples - num[i]) / (n_samples - 1)
         mean_denom_i = (denom_mean * n_samples - denom[i]) / (n_samples - 1)
